@@ -216,6 +216,16 @@ func runC06(e *Engine, r *Report, tier string) {
 				nc, _ := NormCond(Guard{Cond: iff.Cond, Pol: false, If: iff})
 				op = nc.Op
 			}
+			// the releasing code is entered only through this comparison: no other condition (`timeout < observed || <other>`)
+			// or jump leads into it
+			relStart := b.Succs[0]
+			if fe {
+				relStart = b.Succs[1]
+			}
+			if !edgeDominates(b, relStart, relStart) {
+				r.Fail("R2", ck, e.InstrPos(iff), "the releasing branch can also be entered without the comparison of the record's own timeout with the observed external height (another condition or-ed with it): a record is released although no observed event has reached its timeout")
+				continue
+			}
 			tv, ov, fld := ci.X, ci.Y, fx
 			if oky {
 				tv, ov, fld = ci.Y, ci.X, fy
